@@ -24,10 +24,11 @@ import (
 //	                 with crash enumeration over the write stream
 //	prune N          PruneBelowVersion(v) with crash enumeration over its delete stream
 type RoundScript struct {
-	Prop   string `json:"prop"`
-	Lag    int    `json:"lag"`    // how many later rounds are executed before a round is saved (0..2)
-	Rebase bool   `json:"rebase"` // rebase a block's level DB onto the persistent store after saving it
-	Ops    []Op   `json:"ops"`
+	Prop     string `json:"prop"`
+	Lag      int    `json:"lag"`                 // how many later rounds are executed before a round is saved (0..2)
+	Rebase   bool   `json:"rebase"`              // rebase a block's level DB onto the persistent store after saving it
+	WriteErr bool   `json:"write_err,omitempty"` // half of the saves meet one injected write error (no crash) and are retried
+	Ops      []Op   `json:"ops"`
 }
 
 func (s *RoundScript) Len() int { return len(s.Ops) }
@@ -554,12 +555,33 @@ func (w *rworld) saveOldest() bool {
 	b.dead = hashesOf(deletes)
 	l0 := w.disk.LogLen()
 	var err error
-	if w.guard("RecordDeadNodes/SaveChanges", func() {
+	save := func() {
 		if err = w.pndb.RecordDeadNodes(deletes, b.ver); err != nil {
 			return
 		}
 		err = b.mpt.SaveChanges(context.Background(), w.pndb, false)
-	}) {
+	}
+	if w.s.WriteErr {
+		// separate fault-injecting configuration: one write of this save's stream returns an I/O error (nothing is
+		// applied, nothing crashes); the caller sees the error and saves again, with the same objects
+		if fr := sim.NewRand(uint64(b.ver)*131 + uint64(idx)*7 + 1); fr.Chance(1, 2) {
+			before := w.disk.St.WriteErrs
+			w.disk.FailWrite = map[int]bool{w.disk.St.Writes + 1 + fr.Intn(3): true}
+			if w.guard("RecordDeadNodes/SaveChanges under a write error", save) {
+				return false
+			}
+			w.disk.FailWrite = nil
+			if w.disk.St.WriteErrs > before {
+				w.stats.Inc("fault.write-error-in-save")
+				if err == nil {
+					w.fail("c04.save", "write-error-swallowed", "a write of the save of round %d failed with an injected I/O error and the save reported success", b.ver)
+					return false
+				}
+				w.stats.Inc("probe.save-retried-after-a-write-error")
+			}
+		}
+	}
+	if w.guard("RecordDeadNodes/SaveChanges", save) {
 		return false
 	}
 	if err != nil {
